@@ -140,7 +140,19 @@ def check(spec, tier, seed, only_replay=None):
                 notes.append('known finding %s did not reproduce (verdict %s)' % (f['id'], verdict))
         else:
             if verdict == 'FAIL':
-                violations.append((sig, path, 'regression of fixed finding %s: %s' % (f['id'], f['what'])))
+                # the same input may now run into a *recorded* finding that lay behind the repaired one
+                other = None
+                if not re.search(f['sig_regex'], sig):
+                    for k_ in known:
+                        if re.search(k_['sig_regex'], sig) and ('match_detail' not in k_ or re.search(k_['match_detail'], out)):
+                            other = k_
+                            break
+                if other is not None:
+                    line = 'KNOWN-FINDING: property=%s %s [%s] %s' % (pid, other['id'], sig, other['what'])
+                    if line not in known_lines:
+                        known_lines.append(line)
+                else:
+                    violations.append((sig, path, 'regression of fixed finding %s: %s' % (f['id'], f['what'])))
             elif verdict not in ('PASS',):
                 notes.append('fixed finding %s replay verdict %s' % (f['id'], verdict))
 
